@@ -34,7 +34,7 @@ NA = {
  "C10": "a data race is a pair of unordered conflicting accesses in two threads; no contract over one call expresses it and CBMC contracts have no race semantics. The lock-invariant units assume exactly this property.",
 }
 # properties whose core units exist and pass on the unchanged tree (kept by hand)
-CLAIMED = ["C01", "C02", "C03", "C04", "C05", "C06", "C07", "C09", "C11", "C12", "C13", "C14", "C15", "C16", "C17", "C18"]
+CLAIMED = ["C01", "C02", "C03", "C04", "C05", "C06", "C07", "C09", "C11", "C12", "C13", "C14", "C15", "C16", "C17", "C18", "C19", "C20"]
 
 PLANNED = "the core proof units for this property have not been built yet (planned in DESIGN.md section 5); not claimed until its obligations are discharged on every run"
 
